@@ -381,8 +381,8 @@ def check_stop(ctx, prog):
                         return clients          # conversion to int
                 return None
             ev = bounded.Bound(prog, s, {sync: 1} if sync is not None else {}, {}, bind=bind)
-            # from every polling sleep: can the exit be reached without sleeping again?
-            for start in sleeps:
+            # from every polling sleep - and from the entry of stop() - can the exit be reached without sleeping (again)?
+            for start in list(sleeps) + [scfg.entry]:
                 seen = set()
                 work = [m for m, _ in start.succ]
                 while work:
